@@ -315,6 +315,7 @@ def run(prop, tier, seed, jobs, proof, out):
     agg = {"cases": 0, "stats": collections.Counter(), "failures": [], "keys": set(), "samples": [], "digests": set()}
     deadline = DEADLINE[tier]
     ex = concurrent.futures.ProcessPoolExecutor(max_workers=min(jobs, chunks), mp_context=mp.get_context("fork"))
+    clean = False
     try:
         futs = [ex.submit(work, j) for j in jobl]
         try:
@@ -329,11 +330,15 @@ def run(prop, tier, seed, jobs, proof, out):
                     agg["samples"].extend(s["samples"])
         except concurrent.futures.TimeoutError:
             raise W.HarnessTimeout(f"{prop}: the case workers did not finish within {deadline} s")
+        clean = True
     finally:
-        for p_ in list(getattr(ex, "_processes", {}).values()):
-            if p_.is_alive():
-                p_.kill()
-        ex.shutdown(wait=False, cancel_futures=True)
+        if clean:
+            ex.shutdown(wait=True)
+        else:
+            for p_ in list(getattr(ex, "_processes", {}).values()):
+                if p_.is_alive():
+                    p_.kill()
+            ex.shutdown(wait=False, cancel_futures=True)
 
     # ---- known findings: replay each witness on the real code
     known_by_monitor = {}
